@@ -5,9 +5,9 @@ P="$1"; shift; PROP="$1"; shift
 WT=$(mktemp -d /tmp/wt-seed-XXXXXX)
 rmdir "$WT"
 git -C /repo worktree add -q --detach "$WT" HEAD || exit 3
-( cd "$WT" && git apply "$P" ) || { echo "patch does not apply"; git -C /repo worktree remove --force "$WT"; exit 3; }
+( cd "$WT" && { git apply "$P" 2>/dev/null || git apply "$(dirname "$P")/patch_rebased.diff"; } ) || { echo "patch does not apply"; git -C /repo worktree remove --force "$WT"; exit 3; }
 cd /verif
-./bin/gosmt -repo "$WT" -prop "$PROP" -no-evidence "$@" 2>&1 | grep -v "^INCONCLUSIVE\|^\[" | tail -6
+${GOSMT:-./bin/gosmt} -repo "$WT" -prop "$PROP" -no-evidence "$@" 2>&1 | grep -v "^INCONCLUSIVE\|^\[" | tail -6
 rc=${PIPESTATUS[0]}
 git -C /repo worktree remove --force "$WT"
 echo "exit=$rc"
